@@ -54,6 +54,9 @@ type reader struct {
 	digest       hash.Hash32
 	err          error
 	scratch      [4]byte
+	// dictDecompressor records that decompressor came from flate.NewReaderDict
+	// (the only inflater that honours a preset dictionary).
+	dictDecompressor bool
 }
 
 // Resetter resets a ReadCloser returned by NewReader or NewReaderDict
@@ -132,7 +135,7 @@ func (z *reader) Close() error {
 }
 
 func (z *reader) Reset(r io.Reader, dict []byte) error {
-	*z = reader{decompressor: z.decompressor}
+	*z = reader{decompressor: z.decompressor, dictDecompressor: z.dictDecompressor}
 	if fr, ok := r.(*bufio.Reader); ok {
 		z.r = fr
 	} else {
@@ -168,15 +171,19 @@ func (z *reader) Reset(r io.Reader, dict []byte) error {
 		}
 	}
 
-	if z.decompressor == nil {
-		if haveDict {
-			z.decompressor = flate.NewReaderDict(z.r, dict)
-		} else {
-			z.decompressor = flate.NewReader(z.r)
+	// Exactly as NewReaderDict: the dictionary is used only if the stream
+	// refers to it, and then by an inflater that supports one.
+	if z.decompressor != nil && z.dictDecompressor == haveDict {
+		if !haveDict {
+			dict = nil
 		}
-	} else {
 		z.decompressor.(flate.Resetter).Reset(z.r, dict)
+	} else if haveDict {
+		z.decompressor = flate.NewReaderDict(z.r, dict)
+	} else {
+		z.decompressor = flate.NewReader(z.r)
 	}
+	z.dictDecompressor = haveDict
 	z.digest = adler32.New()
 	return nil
 }
